@@ -2,8 +2,22 @@ package main
 
 import (
 	"verif/harness/fw"
-	_ "verif/harness/props/c15a"
+	"verif/harness/props/c15a"
 	_ "verif/harness/props/c17"
 )
+
+// C15a is registered here only for stand-alone testing of the evaluator half of C15; the combined C15 is
+// registered by the lead from c15a.Cases / c15a.Run.
+func init() {
+	fw.Register(&fw.Spec{
+		ID:            "C15a",
+		Level:         "exploration",
+		Rule:          c15a.Rule,
+		Assumptions:   c15a.Assumptions,
+		Cases:         func(tier, mode string) int { return c15a.Cases(tier) },
+		MinNontrivial: c15a.MinNontrivial,
+		Run:           c15a.Run,
+	})
+}
 
 func main() { fw.Main() }
